@@ -252,7 +252,7 @@ def rule_field_names(r):
     return sorted(out)
 
 def gen_rx(rng, seedstr=None):
-    if rng.random() < 0.04: return ["bad"]
+    if rng.random() < 0.015: return ["bad"]
     p = []
     s = seedstr if seedstr is not None else rng.choice(STRVALS + FIELDS)
     for ch in s[:rng.choice([1, 2, 3, 8])]:
@@ -293,11 +293,19 @@ def gen_cond(rng, kind, r, names):
         if t == "processing_item_applied": return {"t": t, "processing_item_id": rng.choice(IDS + ["nope"])}
         if t == "processing_state": return gen_state_cond(rng)
         if t == "rule_attribute":
-            a = rng.choice(ATTRS)
-            v = rng.choice(["Test", "high", "HIGH", "medium", "test", "stable", "2020-02-29", "2021-01-01", "2020-02-30", "x", "5", "-3", "abc",
-                            "me", "a", "zz", "attack.t1059", "sigma", 5, -3, 0, "0e95725d-7320-415d-80f7-004da920fc11", "", "7"])
-            return {"t": t, "attribute": a, "value": v, "op": rng.choice(list(AOP) + ["eq", "eq", "gte"])}
-        if t == "tag": return {"t": t, "tag": rng.choice(["attack.t1059", "attack.execution", "a.b.c", "a.b", "cve.2020-1", "nodot"] if rng.random() < 0.9 else ["nodot"])}
+            a = rng.choice(ATTRS) if rng.random() < 0.3 else rng.choice(["title", "level", "status", "date", "author", "fields", "tags", "mycustom", "other", "taxonomy", "id"])
+            typed = {"level": LEVELS + ["HIGH"], "status": STATUSES, "date": ["2020-02-29", "2021-01-01", "2019-01-01", "2023-12-31"],
+                     "mycustom": [5, -3, "5", "x", 0, 6, 4], "other": ["7", "8", 7], "title": ["Test", "T2"], "author": ["me", "you"],
+                     "fields": FIELDS + ["zz"], "tags": ["attack.t1059", "a.b.c", "x.y"], "taxonomy": ["sigma", "x"]}
+            if a in typed and rng.random() < 0.8:
+                v = rng.choice(typed[a])
+            else:
+                v = rng.choice(["Test", "high", "HIGH", "medium", "test", "stable", "2020-02-29", "2021-01-01", "2020-02-30", "x", "5", "-3", "abc",
+                                "me", "a", "zz", "attack.t1059", "sigma", 5, -3, 0, "0e95725d-7320-415d-80f7-004da920fc11", "", "7"])
+            ops = list(AOP) if a in ("fields", "tags") or rng.random() < 0.2 else ["eq", "ne", "gte", "gt", "lte", "lt"]
+            if a in ("title", "author", "taxonomy", "id") and rng.random() < 0.8: ops = ["eq", "ne"]
+            return {"t": t, "attribute": a, "value": v, "op": rng.choice(ops)}
+        if t == "tag": return {"t": t, "tag": rng.choice(["attack.t1059", "attack.execution", "a.b.c", "a.b", "cve.2020-1"] if rng.random() < 0.97 else ["nodot"])}
         return {"t": t}
     if kind == "det":
         t = rng.choice(["match_string", "match_string", "match_value", "match_value", "contains_wildcard", "is_null",
@@ -347,7 +355,7 @@ def tree_ids(t):
     if t[0] == "id": return [t[1]]
     return [x for s in t[1:] for x in tree_ids(s)]
 
-def gen_group(rng, kind, r, names, p_empty=0.35, malformed=0.06):
+def gen_group(rng, kind, r, names, p_empty=0.35, malformed=0.03):
     n = 0 if rng.random() < p_empty else rng.choice([1, 1, 2, 2, 3])
     conds = [gen_cond(rng, kind, r, names) for _ in range(n)]
     form = rng.choice(["list", "list", "map"])
